@@ -28,6 +28,7 @@ Print Assumptions C16_publish_flags.
 (* non-vacuity: every first byte has an accepted frame (remaining length 0) *)
 Theorem C16_all_accepted : forall b0, exists k p, decode_frame b0 [] = Some (Some (k, p), None).
 Proof. intros b0. unfold decode_frame. destruct (fresh_pkt (b2n b0)) as [k p]. exists k, p. reflexivity. Qed.
+Print Assumptions C16_all_accepted.
 
 Example C16_example :
   exists p, decode_frame x3b [x00; x01; x74; x00; x05; x00; xaa] = Some (Some (KPublish, p), None)
